@@ -317,7 +317,12 @@ def evaluate(mod, cases, out, stats):
             # the module decides with the model result in hand: [(what, kind, finding id | None)]
             ms = per_case.get(k)
             ms = None if (ms is None or None in ms) else (ms if len(ms) > 1 else ms[0])
-            for what, kind, fid in mod.judge(case, ir, ms):
+            try:
+                verdicts = list(mod.judge(case, ir, ms))
+            except Exception as e:
+                # fail closed: an output the judge cannot interpret is not an output shown to satisfy the property
+                verdicts = [('the implementation output could not be interpreted: %s: %s' % (type(e).__name__, e), 'property', None)]
+            for what, kind, fid in verdicts:
                 if fid:
                     c, ex = out.known_hits.get(fid, (0, None))
                     out.known_hits[fid] = (c + 1, ex or (case, what))
@@ -325,7 +330,10 @@ def evaluate(mod, cases, out, stats):
                     out.failures.append((case, what, kind))
             continue
         # 1. the property itself, evaluated directly on the implementation's output
-        fail = mod.oracle(case, ir)
+        try:
+            fail = mod.oracle(case, ir)
+        except Exception as e:
+            fail = 'the implementation output could not be interpreted: %s: %s' % (type(e).__name__, e)
         if fail:
             fid = mod.known(case, fail) if hasattr(mod, 'known') else None
             if fid:
@@ -337,7 +345,10 @@ def evaluate(mod, cases, out, stats):
         # 2. correspondence with the model
         ms = per_case.get(k)
         if ms is not None and None not in ms:
-            d = mod.compare(case, ir, ms if len(ms) > 1 else ms[0])
+            try:
+                d = mod.compare(case, ir, ms if len(ms) > 1 else ms[0])
+            except Exception as e:
+                d = 'implementation and model outputs could not be compared: %s: %s' % (type(e).__name__, e)
             if d:
                 fid = mod.known(case, d) if hasattr(mod, 'known') else None
                 if fid:
@@ -568,7 +579,10 @@ def evaluate_impl_only(mod, cases, out, stats):
                 else:
                     out.failures.append((case, what, kind))
             continue
-        fail = mod.oracle(case, ir)
+        try:
+            fail = mod.oracle(case, ir)
+        except Exception as e:
+            fail = 'the implementation output could not be interpreted: %s: %s' % (type(e).__name__, e)
         if fail:
             fid = mod.known(case, fail) if hasattr(mod, 'known') else None
             if fid:
